@@ -88,6 +88,189 @@ pub struct Posting {
     pub balance: Option<VE>,
 }
 
+/// How the header line of a transaction is written after the date(s).  The book-keeping reads
+/// none of it; what matters is that the line ends where it ends and the postings below are all
+/// read.  The default is the plain header `DATE txn<k>`.
+#[derive(Clone, Copy, Debug, Default, PartialEq, Eq, Serialize, Deserialize)]
+pub struct Head {
+    /// 0 no clear mark, 1 `*`, 2 `!`
+    #[serde(default)]
+    pub mark: u8,
+    /// a code `(c<k>)`
+    #[serde(default)]
+    pub code: bool,
+    /// no payee at all: the header is `DATE`, `DATE *`, `DATE (code)`, `DATE ! (code)` ...
+    #[serde(default)]
+    pub bare: bool,
+    /// nothing between mark, code and payee (`*txn0`, `*(c0)txn0`) instead of one blank
+    #[serde(default)]
+    pub tight: bool,
+    /// blanks after the last word of the header: 0 none, 1 ` `, 2 three blanks, 3 a tab, 4 ` \t `
+    #[serde(default)]
+    pub trail: u8,
+    /// `; head` at the end of the header line
+    #[serde(default)]
+    pub note: bool,
+}
+
+pub const HEAD_TRAILS: [&str; 5] = ["", " ", "   ", "\t", " \t "];
+
+impl Head {
+    /// the n-th header shape of a fixed enumeration (for enumerated case sets without a
+    /// random stream): mark x payee x code x trailing blanks x tight x note
+    pub fn nth(n: usize) -> Head {
+        Head {
+            mark: (n % 3) as u8,
+            bare: (n / 3) % 2 == 1,
+            code: (n / 6) % 3 == 2,
+            trail: ((n / 18) % HEAD_TRAILS.len()) as u8,
+            tight: (n / 90) % 4 == 3,
+            note: (n / 360) % 4 == 3,
+        }
+    }
+    pub fn gen(r: &mut Rng) -> Head {
+        if r.chance(2, 5) {
+            return Head::default();
+        }
+        Head {
+            mark: *r.pick(&[0u8, 1, 1, 1, 2, 2]),
+            code: r.chance(1, 4),
+            bare: r.chance(1, 2),
+            tight: r.chance(1, 6),
+            trail: *r.pick(&[0u8, 0, 0, 0, 1, 2, 3, 4]),
+            note: r.chance(1, 8),
+        }
+    }
+    /// the header ends (blanks aside) right after the clear mark: `DATE *`, `DATE=EFF !  `
+    pub fn ends_after_mark(&self, d: Option<&TxnDeco>) -> bool {
+        self.mark != 0 && !self.note && !self.has_code(d) && !self.has_payee(d)
+    }
+    fn has_code(&self, d: Option<&TxnDeco>) -> bool {
+        self.code || d.map_or(false, |d| d.code.is_some())
+    }
+    fn has_payee(&self, d: Option<&TxnDeco>) -> bool {
+        !self.bare || d.map_or(false, |d| d.payee.is_some())
+    }
+    /// the header line after the date(s), without the line end; `k` numbers payee and code
+    pub fn text(&self, k: usize, d: Option<&TxnDeco>) -> String {
+        let mut words: Vec<String> = Vec::new();
+        match self.mark {
+            1 => words.push("*".into()),
+            2 => words.push("!".into()),
+            _ => {}
+        }
+        match d.and_then(|d| d.code.as_ref()) {
+            Some(c) => words.push(format!("({})", c)),
+            None if self.code => words.push(format!("(c{})", k)),
+            None => {}
+        }
+        match d.and_then(|d| d.payee.as_ref()) {
+            Some(p) => words.push(p.clone()),
+            None if !self.bare => words.push(format!("txn{}", k)),
+            None => {}
+        }
+        let mut s = String::new();
+        for (i, w) in words.iter().enumerate() {
+            // the blank after the date is required; a payee cannot follow a mark or code
+            // directly unless written `tight`; two words of a payee never come from here
+            if i == 0 || !self.tight {
+                s.push(' ');
+            }
+            s.push_str(w);
+        }
+        s.push_str(HEAD_TRAILS[self.trail as usize % HEAD_TRAILS.len()]);
+        if self.note {
+            if !s.ends_with([' ', '\t']) {
+                s.push(' ');
+            }
+            s.push_str("; head");
+        }
+        s
+    }
+}
+
+/// How the sample number of a `format` sub-directive is written.  The declared precision is
+/// its number of decimals and nothing else (CommodityStore::get_decimal_point = scale of the
+/// parsed number), whatever its magnitude, sign or digit grouping.
+#[derive(Clone, Copy, Debug, Default, PartialEq, Eq, Serialize, Deserialize)]
+pub enum FmtLit {
+    /// `1,000.00` (the form of okane's own tests)
+    #[default]
+    Grouped1000,
+    /// `0.00`
+    Zero,
+    /// `1.00`
+    One,
+    /// `999.99`
+    Below1000,
+    /// `1000.00`
+    Plain1000,
+    /// `1,000,000.00`
+    Million,
+    /// `-1.00`
+    NegOne,
+    /// `-1,234.50` with the last decimal a zero
+    NegGrouped,
+}
+
+pub const FMT_LITS: [FmtLit; 8] = [
+    FmtLit::Grouped1000,
+    FmtLit::Zero,
+    FmtLit::One,
+    FmtLit::Below1000,
+    FmtLit::Plain1000,
+    FmtLit::Million,
+    FmtLit::NegOne,
+    FmtLit::NegGrouped,
+];
+
+impl FmtLit {
+    pub fn nth(n: usize) -> FmtLit {
+        FMT_LITS[n % FMT_LITS.len()]
+    }
+    pub fn gen(r: &mut Rng) -> FmtLit {
+        *r.pick(&FMT_LITS)
+    }
+    /// written with a digit-group comma (the literal scanner records a `format` for these only)
+    pub fn has_comma(&self) -> bool {
+        matches!(self, FmtLit::Grouped1000 | FmtLit::Million | FmtLit::NegGrouped)
+    }
+    pub fn name(&self) -> &'static str {
+        match self {
+            FmtLit::Grouped1000 => "1,000.00",
+            FmtLit::Zero => "0.00",
+            FmtLit::One => "1.00",
+            FmtLit::Below1000 => "999.99",
+            FmtLit::Plain1000 => "1000.00",
+            FmtLit::Million => "1,000,000.00",
+            FmtLit::NegOne => "-1.00",
+            FmtLit::NegGrouped => "-1,234.50",
+        }
+    }
+    /// the sample number with `dp` decimals
+    pub fn text(&self, dp: u32) -> String {
+        let unit = 10i64.pow(dp);
+        match self {
+            FmtLit::Grouped1000 => num_text(1000 * unit, dp, true),
+            FmtLit::Zero => num_text(0, dp, false),
+            FmtLit::One => num_text(unit, dp, false),
+            FmtLit::Below1000 => num_text(1000 * unit - 1, dp, false),
+            FmtLit::Plain1000 => num_text(1000 * unit, dp, false),
+            FmtLit::Million => num_text(1_000_000 * unit, dp, true),
+            FmtLit::NegOne => num_text(-unit, dp, false),
+            FmtLit::NegGrouped => num_text(-(1234 * unit + unit / 2), dp, true),
+        }
+    }
+}
+
+/// the part of a generation rule (evidence) that describes how headers and samples are written
+pub const TEXT_SHAPES_RULE: &str = "transaction headers are written in every shape of the grammar - payee or none, clear mark `*` / `!` or none, code or none, one blank or none between them, nothing / blanks / a tab after the last word, `; note` on the header line, `DATE=EFFECTIVE` on one in eight (two headers in five are the plain `DATE payee`; the counts of headers without payee, ending right after the clear mark, with a code, with trailing blanks are in the distribution) - and the sample number of a `format` line has 0-6 decimals and is written as 0.00 / 1.00 / 999.99 / 1000.00 / 1,000.00 / 1,000,000.00 / -1.00 / -1,234.50 (counted per form); the models take the postings and the number of decimals only";
+
+/// decimals of a generated `format` declaration: 0, 2, 3 most often, 1 and 4..6 now and then
+pub fn gen_dp(r: &mut Rng) -> u32 {
+    *r.pick(&[0u32, 2, 2, 3, 0, 2, 2, 3, 0, 2, 3, 1, 4, 5, 6, 2])
+}
+
 #[derive(Clone, Debug, PartialEq, Serialize, Deserialize)]
 pub struct Txn {
     pub date: i32, // days since 2020-01-01
@@ -95,13 +278,40 @@ pub struct Txn {
     #[serde(default)]
     pub effective: Option<i32>,
     pub posts: Vec<Posting>,
+    /// how the header line is written; the report layer never reads it
+    #[serde(default)]
+    pub head: Head,
 }
 
 #[derive(Clone, Debug, PartialEq, Serialize, Deserialize)]
 pub enum Entry {
     Txn(Txn),
-    Format(usize, u32),
+    /// `commodity C` + `format <sample> C`: commodity, decimals, how the sample is written
+    Format(usize, u32, #[serde(default)] FmtLit),
     Comment,
+}
+
+/// give every transaction and format declaration of a generated ledger a drawn header shape /
+/// sample-number shape (generators that build their trees without the shared `gen_txn`)
+pub fn vary_shapes(entries: &mut [Entry], r: &mut Rng) {
+    for e in entries.iter_mut() {
+        match e {
+            Entry::Txn(t) => t.head = Head::gen(r),
+            Entry::Format(_, _, f) => *f = FmtLit::gen(r),
+            Entry::Comment => {}
+        }
+    }
+}
+
+/// the same for enumerated case sets: the n-th ledger of the set gets the n-th shapes
+pub fn vary_shapes_nth(entries: &mut [Entry], n: usize) {
+    for (i, e) in entries.iter_mut().enumerate() {
+        match e {
+            Entry::Txn(t) => t.head = Head::nth(n + 7 * i),
+            Entry::Format(_, _, f) => *f = FmtLit::nth(n + i),
+            Entry::Comment => {}
+        }
+    }
 }
 
 // ---------- text ----------
@@ -286,13 +496,7 @@ pub fn render_deco(entries: &[Entry], deco: &Deco) -> Rendered {
                 if let Some(ed) = t.effective {
                     write!(text, "={}", date_text(ed)).unwrap();
                 }
-                if let Some(c) = &d.code {
-                    write!(text, " ({})", c).unwrap();
-                }
-                match &d.payee {
-                    Some(p) => writeln!(text, " {}", p).unwrap(),
-                    None => writeln!(text, " txn{}", k).unwrap(),
-                }
+                writeln!(text, "{}", t.head.text(k, deco.txns.get(&k))).unwrap();
                 line += 1;
                 for n in &d.notes {
                     writeln!(text, "    ; {}", n).unwrap();
@@ -321,9 +525,9 @@ pub fn render_deco(entries: &[Entry], deco: &Deco) -> Rendered {
                     }
                 }
             }
-            Entry::Format(c, dp) => {
+            Entry::Format(c, dp, lit) => {
                 writeln!(text, "commodity {}", COMMODITIES[*c]).unwrap();
-                writeln!(text, "    format {} {}", num_text(1000 * 10i64.pow(*dp), *dp, true), COMMODITIES[*c]).unwrap();
+                writeln!(text, "    format {} {}", lit.text(*dp), COMMODITIES[*c]).unwrap();
                 line += 2;
             }
             Entry::Comment => {
@@ -417,7 +621,8 @@ pub fn entry_term(e: &Entry) -> String {
                 None => format!("(ETxn (T {} [{}]))", coq::z(t.date as i128), posts.join("; ")),
             }
         }
-        Entry::Format(c, dp) => format!("(EFormat {} {})", c, dp),
+        // the model takes the number of decimals only
+        Entry::Format(c, dp, _) => format!("(EFormat {} {})", c, dp),
         Entry::Comment => "ENop".into(),
     }
 }
@@ -891,8 +1096,59 @@ fn gen_mul_term(r: &mut Rng, comm: usize, b: &Bias, depth: u32) -> (Ex, Decimal)
                 val = q;
             }
         }
+    } else if r.chance(1, 5) {
+        // a division by a number without a finite reciprocal (3, 7, 0.3 ...) of an exact
+        // multiple of it: the quotient - the value `val` the term had anyway - is exact, the
+        // reciprocal of the divisor is not.  The dividend is written as a literal, as the
+        // product `term * d`, or as a sum of two literals.
+        let (dm, ds) = *r.pick(&NT_DIVISORS);
+        let d = Decimal::new(dm, ds);
+        let big = val * d;
+        let dl = Ex::Val(Box::new(VE::Amt(Lit { m: dm, scale: ds, comm: None, grouped: false })));
+        let small = big.scale() <= 6 && big.mantissa().abs() < 1_000_000_000;
+        let dividend = match r.below(3) {
+            0 if small => Ex::Val(Box::new(VE::Amt(Lit { m: big.mantissa() as i64, scale: big.scale(), comm: Some(comm), grouped: r.chance(1, 3) }))),
+            1 if small => {
+                let x = Decimal::new(r.range(1, 5000), big.scale().min(3));
+                let y = big - x;
+                let lit = |v: Decimal| Ex::Val(Box::new(VE::Amt(Lit { m: v.mantissa() as i64, scale: v.scale(), comm: Some(comm), grouped: false })));
+                Ex::Val(Box::new(VE::Paren(Box::new(Ex::Bin(Op::Add, Box::new(lit(x)), Box::new(lit(y)))))))
+            }
+            _ => Ex::Bin(Op::Mul, Box::new(e), Box::new(dl.clone())),
+        };
+        e = Ex::Bin(Op::Div, Box::new(dividend), Box::new(dl));
     }
     (e, val)
+}
+
+/// divisors d with 1/d not a terminating decimal: (mantissa, scale)
+pub const NT_DIVISORS: [(i64, u32); 12] = [(3, 0), (6, 0), (7, 0), (9, 0), (11, 0), (12, 0), (13, 0), (3, 1), (7, 2), (15, 0), (21, 0), (14, 1)];
+
+/// divisions by a bare literal whose reciprocal does not terminate, in an amount expression
+fn nt_div_count_ve(v: &VE) -> usize {
+    match v {
+        VE::Paren(e) => nt_div_count(e),
+        VE::Amt(_) => 0,
+    }
+}
+fn nt_div_count(e: &Ex) -> usize {
+    match e {
+        Ex::Neg(x) => nt_div_count(x),
+        Ex::Val(v) => nt_div_count_ve(v),
+        Ex::Bin(op, l, r) => {
+            let here = match (op, &**r) {
+                (Op::Div, Ex::Val(v)) => match &**v {
+                    VE::Amt(Lit { m, scale, comm: None, .. }) if *m != 0 => {
+                        let d = Decimal::new(*m, *scale);
+                        (Decimal::ONE / d) * d != Decimal::ONE
+                    }
+                    _ => false,
+                },
+                _ => false,
+            };
+            here as usize + nt_div_count(l) + nt_div_count(r)
+        }
+    }
 }
 
 fn add_to(bal: &mut Bal, acct: usize, comm: usize, v: Decimal) {
@@ -1065,7 +1321,10 @@ pub fn gen_txn(r: &mut Rng, date: i32, b: &Bias, bal: &mut Bal, formats: &BTreeM
         }
     }
     *bal = local;
-    Txn { effective: None, date, posts }
+    // the header: any of the shapes the grammar allows; an effective date now and then
+    let head = Head::gen(r);
+    let effective = if r.chance(1, 8) { Some((date + r.range(0, 20) as i32 - 5).max(0)) } else { None };
+    Txn { effective, date, posts, head }
 }
 
 pub fn gen_ledger(r: &mut Rng, b: &Bias) -> Vec<Entry> {
@@ -1075,9 +1334,9 @@ pub fn gen_ledger(r: &mut Rng, b: &Bias) -> Vec<Entry> {
         let k = 1 + r.below(3);
         for _ in 0..k {
             let c = r.below(COMMODITIES.len() as u64) as usize;
-            let dp = *r.pick(&[0u32, 2, 2, 3]);
+            let dp = gen_dp(r);
             formats.insert(c, dp);
-            entries.push(Entry::Format(c, dp));
+            entries.push(Entry::Format(c, dp, FmtLit::gen(r)));
         }
     }
     let mut bal = Bal::new();
@@ -1089,9 +1348,9 @@ pub fn gen_ledger(r: &mut Rng, b: &Bias) -> Vec<Entry> {
         }
         if r.chance(1, 10) {
             let c = r.below(COMMODITIES.len() as u64) as usize;
-            let dp = *r.pick(&[0u32, 2, 3]);
+            let dp = gen_dp(r);
             formats.insert(c, dp);
-            entries.push(Entry::Format(c, dp));
+            entries.push(Entry::Format(c, dp, FmtLit::gen(r)));
         }
         date += r.range(0, 40) as i32 - if r.chance(1, 10) { 30 } else { 0 };
         entries.push(Entry::Txn(gen_txn(r, date.max(0), b, &mut bal, &formats)));
@@ -1125,14 +1384,49 @@ pub struct Shape {
     /// costs / lot prices written with a minus sign: (totals, rates)
     pub neg_total: usize,
     pub neg_rate: usize,
+    /// header shapes: no payee at all / ends right after the clear mark (`DATE *`, blanks aside)
+    /// / carries a code / has blanks after its last word / `DATE=EFFECTIVE`
+    pub head_bare: usize,
+    pub head_mark_only: usize,
+    pub head_code: usize,
+    pub head_trailing_blank: usize,
+    pub head_effective: usize,
+    /// format samples written without a digit-group comma (`0.00`, `999.99`, `1000.00`, `-1.00`)
+    pub fmt_no_comma: usize,
+    pub fmt_lits: Vec<FmtLit>,
+    /// divisions of an exact multiple by a number without a finite reciprocal (`810 JPY / 3`)
+    pub nt_divisions: usize,
+}
+
+/// the counts of `Shape` that describe how the text is written
+pub fn shape_text_stats(st: &mut crate::coq::Stats, s: &Shape) {
+    st.add("shape:header_without_payee", s.head_bare as u64);
+    st.add("shape:header_ends_after_clear_mark", s.head_mark_only as u64);
+    st.add("shape:header_with_code", s.head_code as u64);
+    st.add("shape:header_trailing_blanks", s.head_trailing_blank as u64);
+    st.add("shape:header_effective_date", s.head_effective as u64);
+    st.add("shape:format_sample_without_comma", s.fmt_no_comma as u64);
+    st.add("shape:exact_division_by_number_without_finite_reciprocal", s.nt_divisions as u64);
+    if s.nt_divisions > 0 {
+        st.count("cases_with:exact_division_by_number_without_finite_reciprocal");
+    }
+    for f in &s.fmt_lits {
+        st.add(&format!("format_sample:{}", f.name()), 1);
+    }
 }
 
 pub fn shape(entries: &[Entry]) -> Shape {
-    let mut s = Shape { txns: 0, postings: 0, omitted: 0, assigned: 0, asserted: 0, cost: 0, lot: 0, exprs: 0, formats: 0, neg_total: 0, neg_rate: 0 };
+    let mut s = Shape { txns: 0, postings: 0, omitted: 0, assigned: 0, asserted: 0, cost: 0, lot: 0, exprs: 0, formats: 0, neg_total: 0, neg_rate: 0,
+        head_bare: 0, head_mark_only: 0, head_code: 0, head_trailing_blank: 0, head_effective: 0, fmt_no_comma: 0, fmt_lits: Vec::new(), nt_divisions: 0 };
     for e in entries {
         match e {
             Entry::Txn(t) => {
                 s.txns += 1;
+                s.head_bare += t.head.bare as usize;
+                s.head_mark_only += t.head.ends_after_mark(None) as usize;
+                s.head_code += t.head.code as usize;
+                s.head_trailing_blank += (t.head.trail != 0) as usize;
+                s.head_effective += t.effective.is_some() as usize;
                 for p in &t.posts {
                     s.postings += 1;
                     match (&p.amount, &p.balance) {
@@ -1145,6 +1439,7 @@ pub fn shape(entries: &[Entry]) -> Shape {
                             if matches!(a, VE::Paren(_)) {
                                 s.exprs += 1;
                             }
+                            s.nt_divisions += nt_div_count_ve(a);
                         }
                     }
                     if p.cost.is_some() {
@@ -1162,7 +1457,11 @@ pub fn shape(entries: &[Entry]) -> Shape {
                     }
                 }
             }
-            Entry::Format(..) => s.formats += 1,
+            Entry::Format(_, _, f) => {
+                s.formats += 1;
+                s.fmt_no_comma += !f.has_comma() as usize;
+                s.fmt_lits.push(*f);
+            }
             Entry::Comment => {}
         }
     }
@@ -1219,6 +1518,7 @@ pub fn emit_ledger_case(
     st.add("shape:signed_rate", s.neg_rate as u64);
     st.add("shape:paren_expr", s.exprs as u64);
     st.add("shape:format_decl", s.formats as u64);
+    shape_text_stats(st, &s);
     let rep = case_json(prop, entries, &r.text, &o);
     if st.samples.len() < 3 || (st.samples.len() < 6 && matches!(o, Obs::Err { .. })) {
         st.sample(rep.clone(), 6);
